@@ -305,3 +305,12 @@ func StubFunc(name string, impl interface{}) {
 // satisfies the path condition (symgo: decided by the solver, without
 // forking; natively: b itself).
 func Valid(b bool) bool { return b }
+
+// Yield is a scheduling point without effect (symgo: another goroutine may
+// run here; natively runtime.Gosched).
+func Yield() { yieldNative() }
+
+// PreemptionBound limits schedule exploration to interleavings with at most
+// k preemptive context switches (switching away from a goroutine that could
+// continue); k < 0 = unbounded. Switches at blocking points are always free.
+func PreemptionBound(k int) {}
